@@ -1128,6 +1128,30 @@ pub fn gen_alloc_program(rng: &mut Rng, size: usize, with_submodules: bool) -> M
         pre.push(Card::set_global_var("outf", Card::call_native(name, vec![fresh, keyfn])));
         pre.push(Card::set_global_var("outg", Card::call_native("__to_array", vec![Card::call_native("mktable", vec![c(CardBody::StringLiteral("fresh".into()))])])));
     }
+    if rng.chance(1, 2) {
+        // a table used as a KEY of another table and mutated afterwards: its content hash changes,
+        // so it no longer finds its own entry - the entry is still stored (and found again once
+        // the key has its old content back); with a value that only this entry references
+        let kv = rng.range(1, 4);
+        pre.push(Card::set_var("kt", c(CardBody::CreateTable)));
+        pre.push(Card::set_property(int(kv), read(&"kt".to_string()), c(CardBody::StringLiteral("x".into()))));
+        pre.push(Card::set_var("kh", c(CardBody::CreateTable)));
+        if rng.chance(1, 2) {
+            pre.push(Card::set_property(int(5), read(&"kh".to_string()), int(rng.range(0, 3))));
+        }
+        let val = if rng.chance(1, 2) { c(CardBody::StringLiteral("only the entry holds me".into())) } else { Card::call_native("mktable", vec![c(CardBody::StringLiteral("inner".into()))]) };
+        pre.push(Card::set_property(val, read(&"kh".to_string()), read(&"kt".to_string())));
+        pre.push(Card::set_property(int(kv + 1), read(&"kt".to_string()), c(CardBody::StringLiteral("x".into()))));
+        // allocations while the key does not find its entry
+        pre.push(Card::set_var("junk1", c(CardBody::StringLiteral("garbage one".into()))));
+        pre.push(Card::set_var("junk2", Card::call_native("mktable", vec![int(1)])));
+        // (the table is only read again once the key has its old content back: what a lookup
+        // through a mutated key finds depends on probe positions and is not modelled)
+        pre.push(Card::set_property(int(kv), read(&"kt".to_string()), c(CardBody::StringLiteral("x".into()))));
+        pre.push(Card::set_var("junk3", c(CardBody::StringLiteral("garbage two".into()))));
+        pre.push(Card::set_global_var("outk2", bin(CardBody::GetProperty, read(&"kh".to_string()), read(&"kt".to_string()))));
+        pre.push(Card::set_global_var("outk0", read(&"kh".to_string())));
+    }
     pre.push(Card::set_global_var("outb", read(&"t0".to_string())));
     pre.push(Card::set_global_var("outc", read(&"t00".to_string())));
     let f = &mut m.functions[pos].1;
